@@ -175,7 +175,10 @@ def sphere(ctx):
         raise AnalysisError(f'{qf.qual}: locals a, b, c, t not found')
     sg = 'self.optic.surface_group.'
     px, py, pz = A(sg + 'x[-1,:]'), A(sg + 'y[-1,:]'), A(sg + 'z[-1,:]')
-    dx, dy, dz = -A(sg + 'L[-1,:]'), -A(sg + 'M[-1,:]'), -A(sg + 'N[-1,:]')
+    # direction of the ray ARRIVING at the image surface: the record of the
+    # surface before it (the image surface's own record is the direction
+    # after it, refracted into its post medium)
+    dx, dy, dz = -A(sg + 'L[-2,:]'), -A(sg + 'M[-2,:]'), -A(sg + 'N[-2,:]')
     cx, cy, cz, R = (A(p) for p in qf.params[:4])
     t = A('t')
     F = (px + t * dx - cx) ** 2 + (py + t * dy - cy) ** 2 + \
@@ -187,8 +190,9 @@ def sphere(ctx):
         res.fail(ctx.finding(
             'SPHERE-ID', qf, qf.node,
             'the quadratic for the distance back to the reference sphere is '
-            'not |p + t d - centre|^2 - R^2 with d the reversed ray direction '
-            'at the image surface', construct='sphere quadratic'))
+            'not |p + t d - centre|^2 - R^2 with d the reversed direction of '
+            'the ray arriving at the image surface (record [-2])',
+            construct='sphere quadratic'))
     for name, val in (('t', E['t']), ('masked t', masked)):
         if val is None:
             continue
@@ -200,6 +204,35 @@ def sphere(ctx):
                                  construct=f'sphere root {name}'))
     if masked is not None and sym.eq(E['t'] + masked, -E['b'] / E['a']):
         res.ok('the two arms are the two distinct roots')
+    # what is returned is an OPTICAL length: n(image space) * t
+    rets = [s_ for s_ in qf.node.body if isinstance(s_, ast.Return)]
+
+    def inl_n(call, ev_):
+        fn = call.func
+        if isinstance(fn, ast.Attribute) and fn.attr == 'n' and \
+                'image_surface.material_pre' in unparse(fn.value):
+            return A('N_IMAGE')
+    okn = False
+    if rets:
+        ev.inline = inl_n
+        try:
+            rv = ev.ev(rets[0].value)
+            ncall = [a_ for a_, d_ in sym.defs.items()
+                     if d_[0].startswith('call:') and d_[0].endswith(
+                         'image_surface.material_pre.n')]
+            okn = rat_eq(rv, A('N_IMAGE') * E['t']) or (
+                len(ncall) == 1 and rat_eq(rv, A(ncall[0]) * E['t']))
+        except Inconclusive:
+            okn = False
+    if okn:
+        res.ok('returned leg = n(image medium) * t')
+    else:
+        res.fail(ctx.finding(
+            'SPHERE-ID', qf, rets[0] if rets else qf.node,
+            'the leg from the image surface back to the reference sphere is '
+            'returned as a geometric length: in an image space of index n it '
+            'must count n times',
+            construct='sphere leg optical length'))
     # reference sphere
     rf = None
     for m in c.methods.values():
@@ -436,40 +469,62 @@ def pipeline(ctx):
             sym2 = Sym()
 
             def inl2(call, ev):
-                if isinstance(call.func, ast.Attribute) and \
-                        call.func.attr == 'EPD':
+                fn = call.func
+                if isinstance(fn, ast.Attribute) and fn.attr == 'EPD':
                     return A('EPD')
+                if isinstance(fn, ast.Attribute) and fn.attr == 'n' and \
+                        'object_surface.material_post' in unparse(fn.value):
+                    return A('N_OBJECT')
+                if isinstance(fn, ast.Attribute) and \
+                        fn.attr == 'get_vig_factor':
+                    return (A('VX'), A('VY'))
                 return None
 
-            def ch2(test, ev):
-                s_ = unparse(test)
-                if "field_type == 'angle'" in s_:
-                    return True
-                if 'is None' in s_:
-                    return False
-                return None
-            e2 = Ev(sym=sym2, inline=inl2, choose=ch2)
-            e2.env['field'] = (A('Hx'), A('Hy'))
-            e2.env['opd'] = A('opd')
-            e2.env['x'], e2.env['y'] = A('PX'), A('PY')
-            try:
-                e2.run(t.node.body)
+            for given in (True, False):
+                def ch2(test, ev, given=given):
+                    s_ = unparse(test)
+                    if "field_type == 'angle'" in s_:
+                        return True
+                    if 'is None' in s_:
+                        return not given
+                    return None
+                e2 = Ev(sym=sym2, inline=inl2, choose=ch2)
+                e2.env['field'] = (A('Hx'), A('Hy'))
+                e2.env['opd'] = A('opd')
+                e2.env['x'], e2.env['y'] = A('PX'), A('PY')
+                try:
+                    e2.run(t.node.body)
+                except Inconclusive as e:
+                    raise AnalysisError(f'_correct_tilt: {e}')
                 r2 = e2.returned
-                ty = A('self.optic.fields.max_y_field') * A('Hy') * A('pi') / C(180)
-                want = sym2.sin(ty) * A('EPD') / C(2)
-                d = sym2.diff(r2, 'PY')
+                # theta = Hy * (maximum radial field): the angle the ray
+                # generator launches for normalised field Hy
+                ty = A('self.optic.fields.max_field') * A('Hy') * A('pi') / \
+                    C(180)
+                base = A('N_OBJECT') * sym2.sin(ty) * A('EPD') / C(2)
+                if given:
+                    d = sym2.diff(r2, 'PY')
+                    want, var = base, 'the launch coordinate y'
+                else:
+                    # default samples: the pupil distribution compressed by
+                    # the vignetting factor of the field (the launch points)
+                    d = sym2.diff(r2, 'self.distribution.y')
+                    want, var = base * (ONE - A('VY')), 'distribution.y'
                 if sym2.eq(d, want) and sym2.eq(sym2.diff(r2, 'opd'), ONE):
-                    res.ok('angular fields: d(path)/dPy = +EPD/2 sin(theta_y), '
-                           'd(path)/d(opd) = 1')
+                    res.ok(f'angular fields: d(path)/d({var}) = '
+                           f'n_object EPD/2 sin(Hy max_field)'
+                           f'{"" if given else " (1 - vy)"}')
                 else:
                     res.fail(ctx.finding(
                         'SAME-PIPELINE', t, t.node,
-                        f'oblique-wavefront correction: d(path)/dPy = {d}, '
-                        f'expected +EPD/2 sin(Hy max_y_field): paths are not '
-                        f'measured from a common wavefront in object space',
-                        construct='tilt derivative'))
-            except Inconclusive as e:
-                raise AnalysisError(f'_correct_tilt: {e}')
+                        f'oblique-wavefront correction: d(path)/d({var}) = '
+                        f'{d}, expected {want} (optical path in the object '
+                        f'medium, field angle Hy x maximum radial field, '
+                        f'launch points compressed by the vignetting factor): '
+                        f'paths are not measured from a common wavefront in '
+                        f'object space',
+                        construct='tilt derivative' if given else
+                        'tilt derivative default samples'))
         else:
             res.fail(ctx.finding('SAME-PIPELINE', t, t.node,
                                  'tilt correction alters height-field paths',
@@ -673,4 +728,10 @@ def c03_fields(ctx):
     from .C03 import field_wiring as _r
     return _r(ctx)
 
-RULES = [c03_fields, arg_forward_rule, no_stale, gauss_quad, opd_formula, sphere, pipeline, consumers]
+def c03_trace_entry(ctx):
+    """shared with C03: the pupil samples requested are the ones traced
+    (vignetting factors applied exactly once on the way to the generator)"""
+    from .C03 import trace_entry as _r
+    return _r(ctx)
+
+RULES = [c03_trace_entry, c03_fields, arg_forward_rule, no_stale, gauss_quad, opd_formula, sphere, pipeline, consumers]
